@@ -241,6 +241,29 @@ func (s *Sched) Released(obj any, excl bool) {
 	}
 }
 
+// leakedLocks lists the locks that the model still shows as held by a thread
+// that has finished: a call that returned without releasing a lock. Whatever
+// touches that lock next blocks for ever (and a goroutine blocked on a mutex
+// is not something a synctest bubble can see through), so the caller reports
+// it and leaves the worker.
+func (s *Sched) leakedLocks() []string {
+	s.mu.Lock()
+	defer s.mu.Unlock()
+	var out []string
+	for _, l := range s.locks {
+		if l.writer != nil && l.writer.harness && l.writer.state == tsDone {
+			out = append(out, l.label+" (held exclusively by "+l.writer.name+", which has returned)")
+		}
+		for r := range l.readers {
+			if r.harness && r.state == tsDone {
+				out = append(out, l.label+" (held shared by "+r.name+", which has returned)")
+			}
+		}
+	}
+	sort.Strings(out)
+	return out
+}
+
 func (s *Sched) admissible(th *thread) bool {
 	switch th.op.Kind {
 	case vhook.KLock:
